@@ -233,7 +233,7 @@ func registerSqrtWitness(r *mon.Run) {
 
 func runC11(r *mon.Run) {
 	r.Rule = "cases: Sqrt and Cbrt on random operands of 1..3p digits with odd/even exponents, perfect squares/cubes and their +/-1 " +
-		"neighbours, constructed hard cases x = r^2 +/- k with r adjacent to a tie or to a representable value, and a stratum at precisions of 16000..45000 digits. Sqrt oracle: " +
+		"neighbours, constructed hard cases x = r^2 +/- k with r adjacent to a tie or to a representable value, and a stratum at precisions of 16000..45000 digits and around 65536. Sqrt oracle: " +
 		"integer square root with exact remainder comparison, rounded half-even once; Cbrt oracle: integer cube root, result within one " +
 		"unit checked by exact cubes (R-u)^3 <= x <= (R+u)^3. distinct_nontrivial = distinct (op,context,x) whose root is inexact or a " +
 		"perfect cube that fits."
@@ -262,9 +262,12 @@ func runC11(r *mon.Run) {
 		// implementation may switch algorithms by size): short operands whose root
 		// fills the whole precision, and operands of tens of thousands of digits
 		rr := t.Rng
-		p := []int64{16383, 16384, 20010, 32766, 32767, 32768, 32795, 40000}[rr.Intn(8)]
+		p := []int64{16383, 16384, 20010, 32766, 32767, 32768, 32795, 40000, 65535, 65536, 65537, 70001}[rr.Intn(12)]
 		if rr.Bool() {
 			p = rr.Range(16000, 45000)
+			if rr.Chance(1, 4) {
+				p = rr.Range(65000, 72000)
+			}
 		}
 		c := dec.Ctx{P: p, Emin: -100000, Emax: 100000, Mode: gen.Mode(rr)}
 		x := dec.D{Form: dec.Finite, C: big.NewInt(rr.Range(2, 999)), E: rr.Range(-3, 3)}
